@@ -128,4 +128,19 @@ NeverRedoComplete == ~redoneComplete
 NeverSkipIncomplete == ~skippedIncomplete
 \* outputs are never removed
 Monotone == [][disk \subseteq disk']_vars
+\* the files of a page present on disk form a prefix of the order in which they are written
+PrefixOnDisk == \A p \in Pages : \A i \in 1..Len(Writes(p)) : (Writes(p)[i] \in disk) => \A j \in 1..i : Writes(p)[j] \in disk
+-----------------------------------------------------------------------------
+(* Refinement: seen from any single page p, ParseFolder implements ParseFolderInd - the unbounded abstraction (any batch size,
+   any number of crops, any number of kills) whose inductive invariant is proved with Apalache.  Meaningful for the repaired
+   tool with at least one single-file output requested (the ghosts are then never set).                                      *)
+InTodo(p) == \E i \in 1..Len(todo) : todo[i] = p
+AbsPage(p) == INSTANCE ParseFolderInd WITH
+                 NL <- (IF "lines" \in Kinds THEN NLines ELSE 0), K <- Cardinality(Kinds \ {"lines"}), Kc <- Cardinality(Consulted),
+                 LegacyOrder <- LegacyOrder,
+                 n <- Cardinality(FilesOf(p) \cap disk), phase <- phase,
+                 mine <- (IF phase = "running" /\ InTodo(p) THEN (IF Head(todo) = p THEN "current" ELSE "todo") ELSE "out"),
+                 w <- (IF phase = "running" /\ todo # <<>> /\ Head(todo) = p THEN w ELSE 0),
+                 skippedIncomplete <- skippedIncomplete, redoneComplete <- redoneComplete
+RefinesInd == \A p \in Pages : AbsPage(p)!Spec
 =============================================================================
